@@ -324,6 +324,35 @@ func init() {
 			})
 		}
 		f.boolFact("pruneSearchChecked", searches > 0 && guards >= searches)
+		// C12: the mark phase starts from EVERY ref (heads, tags, remotes, transactions)
+		fcr := f.funcDecl("pkg/prune/prune.go", "", "findCommitsToRemove")
+		allRefs := false
+		if fcr != nil {
+			ast.Inspect(fcr.Body, func(n ast.Node) bool {
+				if c, ok := n.(*ast.CallExpr); ok && f.src(c.Fun) == "ref.ListAllRefs" {
+					allRefs = true
+				}
+				if c, ok := n.(*ast.CallExpr); ok && (f.src(c.Fun) == "ref.ListLocalRefs" || f.src(c.Fun) == "ref.ListHeads") {
+					allRefs = false
+				}
+				return true
+			})
+		}
+		f.boolFact("pruneRootsAreAllRefs", allRefs)
+		// C15: the prefix that removes a remote's refs ends at a path boundary ("remotes/<r>/")
+		dar := f.funcDecl("pkg/ref/refs.go", "", "DeleteAllRemoteRefs")
+		boundary := false
+		if dar != nil {
+			ast.Inspect(dar.Body, func(n ast.Node) bool {
+				if c, ok := n.(*ast.CallExpr); ok && strings.HasSuffix(f.src(c.Fun), ".FilterKey") && len(c.Args) >= 1 {
+					boundary = strings.Contains(f.src(c.Args[0]), "RemoteRef(remote, \"\")")
+				}
+				return true
+			})
+		}
+		rr := f.funcDecl("pkg/ref/refs.go", "", "RemoteRef")
+		rrOK := rr != nil && strings.Contains(f.src(rr.Body), "\"%s%s/%s\"")
+		f.boolFact("remoteRefsPrefixEndsWithSlash", boundary && rrOK)
 		// C14: transaction.Commit refuses a committed transaction and skips branches it already moved;
 		// Discard checks the status before deleting staged refs
 		tc := f.funcDecl("pkg/transaction/transaction.go", "", "Commit")
